@@ -8,6 +8,7 @@ rules, and an independent safety monitor "authenticated => OK pending and BEGIN 
 """
 import binascii
 import itertools
+import os
 import random
 
 from zope.interface import implementer
@@ -618,6 +619,106 @@ def other_users_cookie(ctx, env):
         s_.finish()
 
 
+def keyring_left_by_a_predecessor(ctx, env):
+    """The keyring as an earlier bus process with the same pid-derived context (or a crash in the middle of a cookie
+    update) left it: a stale lock file, expired and recent cookies, damaged lines.  A conforming client - it answers with
+    the cookie the challenge names, read from the keyring - is still accepted, and the lock is gone afterwards."""
+    hx = binascii.hexlify
+    import time as _time
+    ctxname = A.BusCookieAuthenticator.cookieContext
+    kdir = env.keyring
+    os.makedirs(kdir, mode=0o700, exist_ok=True)
+    os.chmod(kdir, 0o700)
+    now = int(_time.time())
+    states = {
+        'stale-lock': {ctxname + '.lock': b'1 %d deadbeef\n' % now},
+        'stale-lock-and-cookies': {ctxname + '.lock': b'', ctxname: b'7 %d 00aa\n8 %d 00bb\n' % (now, now - 5)},
+        'expired-cookies': {ctxname: b'3 %d 00cc\n4 %d 00dd\n' % (now - 4000, now - 31)},
+        'damaged-lines': {ctxname: b'5 %d 00ee\nnot a cookie line at all\n\n6 notatime 00ff\n' % now},
+        'highest-id-first': {ctxname: b'41 %d 0011\n2 %d 0022\n' % (now, now)},
+    }
+    for name, files in states.items():
+        case = {'kind': 'keyring-history', 'state': name}
+        for f_ in os.listdir(kdir):
+            os.unlink(os.path.join(kdir, f_))
+        for fn, content in files.items():
+            with open(os.path.join(kdir, fn), 'wb') as f:
+                f.write(content)
+            os.chmod(os.path.join(kdir, fn), 0o600)
+        s_ = Session()
+        s_.feed([b'\0'])
+        lines = s_.feed([b'AUTH DBUS_COOKIE_SHA1 ' + hx(authenv.USER.encode()) + b'\r\n'])
+        ctx.count('evaluations')
+        ctx.count('keyring_history_exchanges')
+        w = {'state': name, 'files_before': {k: v.decode('latin1') for k, v in files.items()},
+             'lines': [l.decode('latin1')[:80] for l in lines]}
+        if s_.crashed:
+            ctx.report('keyring-history-crash', 'the bus-side connection crashed with %r on a keyring holding %s' % (
+                s_.crashed, name), w, case)
+            continue
+        try:
+            context, cid, server_challenge = binascii.unhexlify(lines[-1].split(b' ', 1)[1]).split(b' ')
+            cookie = env.read_cookie(context, cid)
+        except Exception:
+            cookie = None
+        if cookie is None:
+            ctx.report('conforming-client-refused', 'with a keyring holding %s, AUTH DBUS_COOKIE_SHA1 was answered %r: no '
+                       'challenge naming a cookie that is in the keyring' % (name, lines), w, case)
+            continue
+        lines = s_.feed([b'DATA ' + hx(authenv.cookie_response(server_challenge, cookie)) + b'\r\n'])
+        if not lines or kind_of(lines[-1]) != 'OK':
+            ctx.report('conforming-client-refused', 'with a keyring holding %s the right answer got %r' % (name, lines), w, case)
+            continue
+        s_.feed([b'BEGIN\r\n'])
+        if s_.p.auth_calls != 1:
+            ctx.report('conforming-client-refused', 'BEGIN after OK did not authenticate', w, case)
+            continue
+        s_.finish()
+        if env.stale_files():
+            ctx.report('lock-left-behind', 'lock file(s) %r left in the keyring after the exchange' % env.stale_files(), w, case)
+            continue
+        ctx.count('keyring_history_ok')
+    for f_ in os.listdir(kdir):
+        os.unlink(os.path.join(kdir, f_))
+
+
+def pipelined_behind_begin(ctx, env):
+    """After BEGIN the peer's bytes are messages, ALL of them and nothing else: a client may send its first messages in
+    the same segment as BEGIN.  Message bytes containing CR LF (a serial 0x0a0d, a string with a line break, a length) are
+    cut at every position, the first part travelling in the read that carries BEGIN."""
+    from harness import ref_message as RM
+    msgs = [
+        RM.build(1, 0x0a0d, {'path': '/org/freedesktop/DBus', 'member': 'Hello', 'interface': 'org.freedesktop.DBus',
+                             'destination': 'org.freedesktop.DBus'}, '', [], True),
+        RM.build(1, 0x0d0a0d0a, {'path': '/a', 'member': 'M', 'interface': 'a.b', 'destination': 'org.freedesktop.DBus'},
+                 's', ['line one\r\nline two\r\n'], False),
+        RM.build(4, 3338, {'path': '/a', 'member': 'S', 'interface': 'a.b'}, 'ay', [[13, 10, 13, 10, 0, 13, 10]], True),
+    ]
+    stream = b''.join(msgs)
+    prefixes = [[b'\0AUTH ANONYMOUS\r\n', b'BEGIN\r\n'], [b'\0AUTH ANONYMOUS\r\nBEGIN\r\n'], [b'\0', b'AUTH ANONYMOUS\r\nBEG', b'IN\r\n']]
+    for pi, prefix in enumerate(prefixes):
+        for c in range(0, len(stream) + 1):
+            s_ = Session()
+            reads = list(prefix[:-1]) + [prefix[-1] + stream[:c]] + ([stream[c:]] if c < len(stream) else [])
+            s_.feed(reads)
+            ctx.count('evaluations')
+            ctx.count('pipelined_behind_begin_cuts')
+            case = {'kind': 'pipelined', 'prefix': pi, 'cut': c}
+            w = {'reads': [len(x) for x in reads], 'cut': c, 'tail_of_first_read': stream[max(0, c - 4):c].hex(),
+                 'delivered_bytes': len(s_.p.raw_after_auth), 'sent_bytes': len(stream)}
+            if s_.crashed:
+                ctx.report('pipelined-crash', 'bus-side connection crashed with %r on message bytes pipelined behind BEGIN' % (
+                    s_.crashed,), w, case)
+                return
+            if s_.p.auth_calls != 1 or s_.p.raw_after_auth != stream:
+                ctx.report('pipelined-bytes-lost', 'BEGIN + the first %d message bytes in one read (ending in %s): the '
+                           'authenticated peer sent %d message bytes, %d were delivered as messages%s' % (
+                               c, w['tail_of_first_read'], len(stream), len(s_.p.raw_after_auth),
+                               '' if s_.p.raw_after_auth == stream[:len(s_.p.raw_after_auth)] else ' (and they differ)'), w, case)
+                return
+            s_.finish()
+
+
 def concurrent_cookie_clients(ctx, env, n_histories):
     """Several connections run the DBUS_COOKIE_SHA1 exchange against the same keyring with their steps interleaved
     (and finishing out of order, some abandoning): every conforming client - one that answers with the cookie the
@@ -787,6 +888,8 @@ def run(ctx):
             conforming_clients(ctx, env)
             concurrent_cookie_clients(ctx, env, 300 if ctx.tier == 'quick' else 6000)
             other_users_cookie(ctx, env)
+            keyring_left_by_a_predecessor(ctx, env)
+            pipelined_behind_begin(ctx, env)
         ctx.sample({'symbols': ['AUTH_COOKIE_user', 'DATA_right', 'BEGIN'],
                     'meaning': 'AUTH DBUS_COOKIE_SHA1 <hex user>; DATA <hex answer computed from the live challenge>; BEGIN'})
         ctx.sample({'symbols': ['AUTH_BOGUS'] * 6, 'expected': '5 x REJECTED then close'})
